@@ -2,10 +2,14 @@ package blocks
 
 // Driver `blocks` (C04 C05 C06 C13, + C09 history/admission): blocks of mixed Ethereum / Cosmos
 // transactions through FinalizeBlock/Commit on the real application, all outcome classes; per-transaction
-// consensus results + events + per-block state are handed to the Coq model (coq/Model/TxPipe.v),
-// and a direct oracle written from the property texts scans the same observations.
+// consensus results + events + per-block state are handed to the Coq model (coq/Model/TxPipe.v, TxPipeExt.v),
+// and a direct oracle written from the property texts scans the same observations.  The expected balance
+// movements / destroyed amounts of every generated transaction come from the reference interpreter of
+// script_test.go (EVM semantics of value transfer, CREATE/CREATE2, REVERT, SELFDESTRUCT), never from the code under test.
 
 import (
+	"crypto/sha256"
+	"encoding/hex"
 	"fmt"
 	"math/big"
 	"sort"
@@ -49,7 +53,6 @@ var (
 	rtSink     = []byte{0x00}                         // STOP (accepts value)
 	rtReverter = []byte{0x60, 0x00, 0x60, 0x00, 0xfd} // REVERT(0,0)
 	rtInvalid  = []byte{0xfe}                         // INVALID: consumes all gas
-	rtSuicide  = []byte{0x30, 0xff}                   // SELFDESTRUCT(ADDRESS): destroys its own balance
 	// n = calldata[0]; n times LOG0(0,0)
 	rtLogger = []byte{0x60, 0x00, 0x35, 0x60, 0xf8, 0x1c, 0x5b, 0x80, 0x15, 0x60, 0x18, 0x57, 0x60, 0x00, 0x60, 0x00, 0xa0, 0x60, 0x01, 0x90, 0x03, 0x60, 0x06, 0x56, 0x5b, 0x00}
 	// n = calldata[0], v = calldata[1]; for k = n..1: SSTORE(k, v)
@@ -67,13 +70,21 @@ const (
 	kStoreSet
 	kStoreClear
 	kSuicide
+	kFundK
 	kCreateOK
 	kCreateFail
+	kDeployK
+	kFactory
+	kScript
 	kCosmosSend
 	nKinds
 )
 
-var kindNames = []string{"transfer", "call-sink", "call-revert", "call-invalid", "call-logger", "store-set", "store-clear", "selfdestruct", "create-ok", "create-fail", "cosmos-send"}
+var kindNames = []string{"transfer", "call-sink", "call-revert", "call-invalid", "call-logger", "store-set", "store-clear", "selfdestruct", "fund-K",
+	"create-ok", "create-fail", "deploy-K", "factory-create2", "script", "cosmos-send"}
+
+// relative frequencies of the kinds
+var kindWeights = []int{8, 5, 5, 4, 7, 6, 8, 8, 3, 6, 4, 7, 5, 20, 8}
 
 // malformations of the C06 stream
 const (
@@ -99,14 +110,24 @@ type world struct {
 	ids     map[common.Address]int64
 	addrs   []common.Address
 	wallets []*itutiltypes.TestAccount
-	sink, reverter, invalid, logger, store common.Address
-	suicides                              []common.Address
-	codeWallet                            *itutiltypes.TestAccount // a wallet whose address was given code (contract-as-sender)
-	poor                                  *itutiltypes.TestAccount
-	chainID                               *big.Int
-	accepted                              [][]byte // raw bytes of previously accepted eth txs (for replays)
-	maxGas                                int64
-	eoa                                   map[common.Address]bool
+	sink, reverter, invalid, logger, store, factory common.Address
+	ks         []common.Address // instances of rtK ever deployed (alive or destroyed)
+	bens       []common.Address // passive beneficiaries
+	core       []common.Address // addresses in every block's universe
+	codeWallet *itutiltypes.TestAccount // a wallet whose address was given code (contract-as-sender)
+	poor       *itutiltypes.TestAccount
+	chainID    *big.Int
+	accepted   []*genTx // previously admitted eth txs (for replays)
+	failedAcc  []*genTx // previously admitted eth txs that failed afterwards (core error, block gas, VM error)
+	cosmosAcc  []*genTx // previously accepted Cosmos txs
+	admitted   map[string]int64 // sha256(raw) of every admitted tx -> height
+	lastSeq    map[common.Address]uint64
+	maxGas     int64
+	eoa        map[common.Address]bool
+	static     map[common.Address]bool // contracts whose nonce never moves
+	kHash      common.Hash
+	kAlive     map[common.Address]bool // instances of rtK alive in the committed state
+	evmModule  common.Address
 }
 
 func (w *world) id(a common.Address) int64 {
@@ -123,14 +144,23 @@ func feeCollector() common.Address {
 	return common.BytesToAddress(authtypes.NewModuleAddress(authtypes.FeeCollectorName))
 }
 
+func (w *world) cqID(a common.Address) string {
+	if a == feeCollector() {
+		return "FEE_COLLECTOR"
+	}
+	return CqZi(w.id(a))
+}
+
 func newWorld(t *testing.T) *world {
 	c := NewChain(t, time.Time{})
-	w := &world{t: t, c: c, ids: map[common.Address]int64{}, maxGas: -1}
+	w := &world{t: t, c: c, ids: map[common.Address]int64{}, maxGas: -1, kAlive: map[common.Address]bool{}, admitted: map[string]int64{}, lastSeq: map[common.Address]uint64{}, static: map[common.Address]bool{}}
 	ctx := c.Ctx()
 	if cp, err := c.App.ConsensusParamsKeeper.ParamsStore.Get(ctx); err == nil && cp.Block != nil {
 		w.maxGas = cp.Block.MaxGas
 	}
 	w.chainID = c.App.EvmKeeper.GetEip155ChainId(ctx).BigInt()
+	w.kHash = crypto.Keccak256Hash(rtK)
+	w.evmModule = common.BytesToAddress(authtypes.NewModuleAddress(evmtypes.ModuleName))
 	// no inflation: supply then changes only through transactions
 	mp, err := c.App.MintKeeper.Params.Get(ctx)
 	require.NoError(t, err)
@@ -158,21 +188,40 @@ func newWorld(t *testing.T) *world {
 	}
 	c.RunBlock(nil)
 
-	// deploy the contracts with real transactions from wallet 6 (kept out of the generator's senders for nonce simplicity? no: it is a sender too)
+	// deploy the fixed contracts with real transactions from wallet 6 (one block)
 	dep := w.wallets[5]
-	deploy := func(rt []byte) common.Address {
-		ctx := c.QueryCtx()
-		nonce := c.Nonce(ctx, dep.GetEthAddress())
-		bz, _, err := c.EthTxBytes(dep, &ethtypes.LegacyTx{Nonce: nonce, GasPrice: new(big.Int).Mul(c.BaseFee(ctx), big.NewInt(2)), Gas: 300000, Data: deployer(rt)})
-		require.NoError(t, err)
-		res := c.RunBlock([][]byte{bz})
-		require.Equal(t, uint32(0), res.TxResults[0].Code, res.TxResults[0].Log)
-		a := crypto.CreateAddress(dep.GetEthAddress(), nonce)
-		require.NotEmpty(t, c.App.EvmKeeper.GetCode(c.QueryCtx(), c.App.EvmKeeper.GetCodeHash(c.QueryCtx(), a.Bytes())), "contract not deployed")
-		w.id(a)
-		return a
+	inits := [][]byte{deployer(rtSink), deployer(rtReverter), deployer(rtInvalid), deployer(rtLogger), deployer(rtStore), InitCode(buildFactory())}
+	vals := []int64{0, 0, 0, 0, 0, 0, 12345, 0, 777, 1_000_000_007}
+	for i := 0; i < 4; i++ {
+		inits = append(inits, initK())
 	}
-	w.sink, w.reverter, w.invalid, w.logger, w.store = deploy(rtSink), deploy(rtReverter), deploy(rtInvalid), deploy(rtLogger), deploy(rtStore)
+	var raws [][]byte
+	var made []common.Address
+	{
+		qctx := c.QueryCtx()
+		nonce := c.Nonce(qctx, dep.GetEthAddress())
+		for i, ic := range inits {
+			bz, _, err := c.EthTxBytes(dep, &ethtypes.LegacyTx{Nonce: nonce, GasPrice: new(big.Int).Mul(c.BaseFee(qctx), big.NewInt(2)), Gas: 400000, Data: ic, Value: big.NewInt(vals[i])})
+			require.NoError(t, err)
+			raws = append(raws, bz)
+			made = append(made, crypto.CreateAddress(dep.GetEthAddress(), nonce))
+			nonce++
+		}
+	}
+	res := c.RunBlock(raws)
+	for i, a := range made {
+		require.Equal(t, uint32(0), res.TxResults[i].Code, res.TxResults[i].Log)
+		require.NotEmpty(t, c.App.EvmKeeper.GetCode(c.QueryCtx(), c.App.EvmKeeper.GetCodeHash(c.QueryCtx(), a.Bytes())), "contract %d not deployed", i)
+		w.id(a)
+	}
+	w.sink, w.reverter, w.invalid, w.logger, w.store, w.factory = made[0], made[1], made[2], made[3], made[4], made[5]
+	w.ks = append(w.ks, made[6:]...)
+	for _, a := range made[6:] {
+		w.kAlive[a] = true
+	}
+	for _, a := range made[:5] { // the factory's nonce moves with every CREATE2
+		w.static[a] = true
+	}
 	// give the code wallet some code directly (an EOA key whose account has code: "contract as sender")
 	{
 		ctx := c.Ctx()
@@ -180,71 +229,79 @@ func newWorld(t *testing.T) *world {
 		c.App.EvmKeeper.SetCode(ctx, ch.Bytes(), rtSink)
 		c.App.EvmKeeper.SetCodeHash(ctx, w.codeWallet.GetEthAddress(), ch)
 	}
+	for i := 0; i < 3; i++ {
+		b := common.BigToAddress(big.NewInt(int64(0xBE0000 + i)))
+		w.bens = append(w.bens, b)
+	}
 	w.id(feeCollector())
+	w.id(w.evmModule)
+	for _, x := range w.wallets {
+		w.core = append(w.core, x.GetEthAddress())
+	}
+	w.core = append(w.core, w.poor.GetEthAddress(), w.codeWallet.GetEthAddress(), w.sink, w.reverter, w.invalid, w.logger, w.store, w.factory, feeCollector(), w.evmModule)
+	w.core = append(w.core, w.bens...)
+	for s := uint64(0); s < nSalts; s++ {
+		w.core = append(w.core, c2Address(w.factory, s))
+	}
 	c.RunBlock(nil)
 	return w
-}
-
-func (w *world) ensureSuicides(n int) {
-	dep := w.wallets[5]
-	for len(w.suicides) < n {
-		ctx := w.c.QueryCtx()
-		nonce := w.c.Nonce(ctx, dep.GetEthAddress())
-		bz, _, err := w.c.EthTxBytes(dep, &ethtypes.LegacyTx{Nonce: nonce, GasPrice: new(big.Int).Mul(w.c.BaseFee(ctx), big.NewInt(2)), Gas: 300000, Data: deployer(rtSuicide), Value: big.NewInt(12345)})
-		require.NoError(w.t, err)
-		res := w.c.RunBlock([][]byte{bz})
-		require.Equal(w.t, uint32(0), res.TxResults[0].Code, res.TxResults[0].Log)
-		a := crypto.CreateAddress(dep.GetEthAddress(), nonce)
-		w.id(a)
-		w.suicides = append(w.suicides, a)
-	}
 }
 
 // ---------------------------------------------------------------- generated transactions
 
 type genTx struct {
-	Kind    string `json:"kind"`
-	Mal     string `json:"malformation"`
-	Sender  int64  `json:"sender"`
-	Dyn     bool   `json:"dynamic_fee"`
-	Price   string `json:"price_or_cap"`
-	Tip     string `json:"tip"`
-	Gas     uint64 `json:"gas"`
-	Nonce   uint64 `json:"nonce"`
-	Value   string `json:"value"`
-	raw     []byte
-	coq     string // Coq term `Eth (mkTx ...) (mkOut ...)` with observation holes filled later
-	isEth   bool
-	txd     string
-	moves   [][2]string // scenario moves on success (address id, signed amount)
-	burnOK  *big.Int
-	hash    common.Hash
-	from    common.Address
-	create  bool
-	nonce   uint64
-	value   *big.Int
-	limit   uint64
-	price   *big.Int // effective price
-	intr    uint64
-	senderK *itutiltypes.TestAccount
+	Kind   string `json:"kind"`
+	Mal    string `json:"malformation"`
+	Sender int64  `json:"sender"`
+	From   string `json:"from"`
+	To     string `json:"to,omitempty"`
+	Dyn    bool   `json:"dynamic_fee"`
+	Price  string `json:"price_or_cap"`
+	Tip    string `json:"tip"`
+	Gas    uint64 `json:"gas"`
+	Nonce  uint64 `json:"nonce"`
+	Value  string `json:"value"`
+	Script string `json:"script,omitempty"`
+	Raw    string `json:"raw_tx,omitempty"`
+
+	raw    []byte
+	coqT   string // Coq term mkTx ...
+	isEth  bool
+	kind   kind
+	hash   common.Hash
+	from   common.Address
+	to     *common.Address
+	create bool
+	nonce  uint64
+	value  *big.Int
+	limit  uint64
+	price  *big.Int // effective price
+	intr   uint64
+	data   []byte
+	scr    *script
+	addrs  []common.Address // every address the tx may touch
+	inadm  string           // reason the encoding can never be admitted ("" = it may be)
+	// cosmos
+	cosmosSeq uint64
 }
 
 type obsTx struct {
-	Class   string // DROPPED REJ FAILED EXEC_OK EXEC_VMERR
-	Code    uint32
-	GW, GU  int64
-	TxIdx   int64
-	RGas    int64
-	Cum     int64
-	LogIdx  int64
-	Status  int64
-	NLogs   int64
-	HasCA   bool
-	CA      string
-	Bloom   ethtypes.Bloom
-	LogsRlp []*ethtypes.Log
+	Class    string // DROPPED REJ FAILED EXEC_OK EXEC_VMERR
+	Code     uint32
+	GW, GU   int64
+	TxIdx    int64
+	RGas     int64
+	Cum      int64
+	LogIdx   int64
+	Status   int64
+	NLogs    int64
+	HasCA    bool
+	CA       string
+	EffPrice string
+	Bloom    ethtypes.Bloom
+	LogsRlp  []*ethtypes.Log
 	// per-tx bank flows from events
-	delta      map[string]*big.Int // bech32 -> net
+	delta      map[common.Address]*big.Int // account -> net
 	minted     *big.Int
 	burned     *big.Int
 	ethTxEvent bool
@@ -259,6 +316,265 @@ func (w *world) localNonce(pending map[common.Address]uint64, a common.Address) 
 	return n
 }
 
+func pickWeighted(r *Rng, ws []int) int {
+	tot := 0
+	for _, x := range ws {
+		tot += x
+	}
+	n := r.Intn(tot)
+	for i, x := range ws {
+		if n < x {
+			return i
+		}
+		n -= x
+	}
+	return len(ws) - 1
+}
+
+func word(a common.Address) []byte { return common.LeftPadBytes(a.Bytes(), 32) }
+
+const nSalts = 5
+
+func (w *world) pickK(r *Rng) common.Address {
+	if r.Chance(70) { // a living instance
+		var alive []common.Address
+		for _, a := range w.ks {
+			if w.kAlive[a] {
+				alive = append(alive, a)
+			}
+		}
+		for s := uint64(0); s < nSalts; s++ {
+			if a := c2Address(w.factory, s); w.kAlive[a] {
+				alive = append(alive, a)
+			}
+		}
+		if len(alive) > 0 {
+			return alive[r.Intn(len(alive))]
+		}
+	}
+	if r.Chance(30) || len(w.ks) == 0 {
+		return c2Address(w.factory, uint64(r.Intn(nSalts)))
+	}
+	return w.ks[r.Intn(len(w.ks))]
+}
+
+// salt of a CREATE2 instance address, -1 if a is none
+func (w *world) saltOf(a common.Address) int {
+	for s := uint64(0); s < nSalts; s++ {
+		if c2Address(w.factory, s) == a {
+			return int(s)
+		}
+	}
+	return -1
+}
+
+// one set-up block deploying n fresh instances of rtK (not a case)
+func (w *world) deployKs(n int) {
+	c := w.c
+	dep := w.wallets[5]
+	qctx := c.QueryCtx()
+	nonce := c.Nonce(qctx, dep.GetEthAddress())
+	vals := []int64{12345, 0, 777, 1_000_000_007, 5}
+	var raws [][]byte
+	var made []common.Address
+	for i := 0; i < n; i++ {
+		bz, _, err := c.EthTxBytes(dep, &ethtypes.LegacyTx{Nonce: nonce, GasPrice: new(big.Int).Mul(c.BaseFee(qctx), big.NewInt(2)), Gas: 400000, Data: initK(), Value: big.NewInt(vals[i%len(vals)])})
+		require.NoError(w.t, err)
+		raws = append(raws, bz)
+		made = append(made, crypto.CreateAddress(dep.GetEthAddress(), nonce))
+		nonce++
+	}
+	res := c.RunBlock(raws)
+	for i, a := range made {
+		require.Equal(w.t, uint32(0), res.TxResults[i].Code, res.TxResults[i].Log)
+		w.id(a)
+		w.ks = append(w.ks, a)
+		w.kAlive[a] = true
+	}
+}
+
+func (w *world) freshAddr(r *Rng) common.Address {
+	return common.BigToAddress(new(big.Int).Add(big.NewInt(0x100000), r.BigBits(20)))
+}
+
+// beneficiary of a self-destruct of target (self = the executing frame, resolved when the script runs)
+func (w *world) pickBenef(r *Rng, target, sender common.Address) (b common.Address, self bool) {
+	switch r.Intn(9) {
+	case 0, 1:
+		return common.Address{}, true
+	case 2:
+		return target, false
+	case 3:
+		return w.pickK(r), false
+	case 4:
+		return sender, false
+	case 5:
+		return w.wallets[r.Intn(len(w.wallets))].GetEthAddress(), false
+	case 6:
+		return w.freshAddr(r), false
+	case 7:
+		return c2Address(w.factory, uint64(r.Intn(nSalts))), false
+	default:
+		return w.bens[r.Intn(len(w.bens))], false
+	}
+}
+
+func (w *world) genScript(r *Rng, depth int, sender common.Address, unit *big.Int, budget *int) *script {
+	s := &script{}
+	val := func() *big.Int {
+		switch r.Intn(8) {
+		case 0, 1, 2:
+			return big.NewInt(0)
+		case 3:
+			return new(big.Int).Mul(unit, big.NewInt(100000)) // more than the frame can hold
+		default:
+			return new(big.Int).Mul(unit, big.NewInt(int64(1+r.Intn(4))))
+		}
+	}
+	n := 1 + r.Intn(5)
+	for i := 0; i < n && *budget > 0; i++ {
+		switch r.Intn(10) {
+		case 0, 1, 2: // repeated self-destruct of one contract, value arriving in between
+			k := w.pickK(r)
+			if sl := w.saltOf(k); sl >= 0 && !w.kAlive[k] && r.Chance(75) && *budget > 0 {
+				*budget--
+				s.ops = append(s.ops, sop{kind: sC2, salt: uint64(sl), value: val()})
+			}
+			m := 2 + r.Intn(3)
+			b, self := w.pickBenef(r, k, sender)
+			for j := 0; j < m && *budget > 0; j++ {
+				*budget--
+				if r.Chance(25) {
+					b, self = w.pickBenef(r, k, sender)
+				}
+				s.ops = append(s.ops, sop{kind: sSD, target: k, value: val(), benef: b, benefSelf: self})
+				if r.Chance(25) && *budget > 0 {
+					*budget--
+					s.ops = append(s.ops, sop{kind: sFund, target: k, value: val()})
+				}
+			}
+		case 3, 4:
+			*budget--
+			k := w.pickK(r)
+			b, self := w.pickBenef(r, k, sender)
+			s.ops = append(s.ops, sop{kind: sSD, target: k, value: val(), benef: b, benefSelf: self})
+		case 5:
+			*budget--
+			var t common.Address
+			switch r.Intn(4) {
+			case 0:
+				t = w.sink
+			case 1:
+				t = w.bens[r.Intn(len(w.bens))]
+			default:
+				t = w.pickK(r)
+			}
+			v := val()
+			if v.Sign() == 0 && t != w.sink && r.Chance(70) {
+				v = new(big.Int).Set(unit)
+			}
+			s.ops = append(s.ops, sop{kind: sFund, target: t, value: v})
+		case 6:
+			*budget--
+			s.ops = append(s.ops, sop{kind: sC2, salt: uint64(r.Intn(nSalts)), value: val()})
+		case 7, 8:
+			if depth < 2 {
+				*budget--
+				s.ops = append(s.ops, sop{kind: sSub, value: val(), sub: w.genScript(r, depth+1, sender, unit, budget)})
+			}
+		default:
+			*budget--
+			s.ops = append(s.ops, sop{kind: sLog})
+		}
+	}
+	e := r.Intn(100)
+	revertPct, sdPct := 12, 18
+	if depth > 0 {
+		revertPct, sdPct = 35, 20
+	}
+	switch {
+	case e < revertPct:
+		s.end = endRevert
+	case e < revertPct+sdPct:
+		s.end = endSD
+		s.endBenef, s.endToSelf = w.pickBenef(r, common.Address{}, sender)
+		if !s.endToSelf && s.endBenef == (common.Address{}) {
+			s.endToSelf = true
+		}
+	}
+	return s
+}
+
+// describe fills the fields derived from the final signed transaction (independently of the ante handler)
+func (w *world) describe(g *genTx, msg *evmtypes.MsgEthereumTx, raw []byte, base *big.Int) {
+	final := msg.AsTransaction()
+	from := g.from
+	rec, recErr := ethtypes.LatestSignerForChainID(w.chainID).Sender(final)
+	recS := "None"
+	if recErr == nil {
+		recS = fmt.Sprintf("(Some %s)", CqZi(w.id(rec)))
+	}
+	isDyn := final.Type() == ethtypes.DynamicFeeTxType
+	gp, tp, cp := final.GasPrice(), big.NewInt(0), big.NewInt(0)
+	if isDyn {
+		gp, tp, cp = big.NewInt(0), final.GasTipCap(), final.GasFeeCap()
+	}
+	fintr, err := core.IntrinsicGas(final.Data(), final.AccessList(), final.To() == nil, true, true)
+	require.NoError(w.t, err)
+	g.coqT = fmt.Sprintf("(mkTx %s %s %s %s %s %s %s %s %s %s %s %s)", CqZi(w.id(from)), recS, CqBool(final.Protected()), CqBool(isDyn),
+		CqZ(gp), CqZ(tp), CqZ(cp), CqZu(final.Gas()), CqZu(final.Nonce()), CqZ(final.Value()), CqBool(final.To() == nil), CqZu(fintr))
+	g.isEth, g.raw, g.hash = true, raw, final.Hash()
+	g.Raw = hex.EncodeToString(raw)
+	g.Dyn, g.Gas, g.Nonce, g.Value = isDyn, final.Gas(), final.Nonce(), final.Value().String()
+	g.Price, g.Tip = gp.String(), tp.String()
+	if isDyn {
+		g.Price = cp.String()
+	}
+	g.From = from.Hex()
+	g.to = final.To()
+	if g.to != nil {
+		g.To = g.to.Hex()
+	}
+	g.create, g.nonce, g.value, g.limit, g.intr, g.data = final.To() == nil, final.Nonce(), final.Value(), final.Gas(), fintr, final.Data()
+	if isDyn {
+		e := new(big.Int).Add(tp, base)
+		if e.Cmp(cp) > 0 {
+			e = cp
+		}
+		g.price = e
+	} else {
+		g.price = gp
+	}
+	// address universe of the tx
+	set := map[common.Address]bool{from: true}
+	if recErr == nil {
+		set[rec] = true
+	}
+	frame := crypto.CreateAddress(from, final.Nonce())
+	set[frame] = true
+	if g.to != nil {
+		set[*g.to] = true
+		if len(g.data) == 32 {
+			if *g.to == w.factory {
+				set[c2Address(w.factory, new(big.Int).SetBytes(g.data).Uint64())] = true
+			} else {
+				set[common.BytesToAddress(g.data[12:])] = true // beneficiary
+			}
+		}
+	}
+	if g.scr != nil {
+		g.scr.addresses(frame, w.factory, set)
+	}
+	g.addrs = g.addrs[:0]
+	for a := range set {
+		g.addrs = append(g.addrs, a)
+	}
+	sort.Slice(g.addrs, func(i, j int) bool { return g.addrs[i].Hex() < g.addrs[j].Hex() })
+	for _, a := range g.addrs {
+		w.id(a)
+	}
+}
+
 func (w *world) genBlock(r *Rng, n int) []*genTx {
 	c := w.c
 	ctx := c.QueryCtx()
@@ -271,18 +587,41 @@ func (w *world) genBlock(r *Rng, n int) []*genTx {
 	pending := map[common.Address]uint64{}
 	spent := map[common.Address]*big.Int{}
 	var out []*genTx
-	nSui := 0
 	for i := 0; i < n; i++ {
-		k := kind(r.Intn(int(nKinds)))
+		// replays first: of this very block, of earlier blocks (with priority to txs that failed after admission)
+		if r.Chance(12) {
+			var pool []*genTx
+			switch r.Intn(5) {
+			case 0, 1:
+				pool = out
+			case 2:
+				pool = w.failedAcc
+			case 3:
+				pool = w.accepted
+			default:
+				pool = w.cosmosAcc
+			}
+			if len(pool) == 0 {
+				pool = out
+			}
+			if len(pool) > 0 {
+				cp := *pool[r.Intn(len(pool))]
+				if cp.Mal == malNames[mNone] {
+					cp.Mal = malNames[mReplay]
+				} else if !strings.HasPrefix(cp.Mal, "replay") {
+					cp.Mal = "replay+" + cp.Mal
+				}
+				out = append(out, &cp)
+				continue
+			}
+		}
+		k := kind(pickWeighted(r, kindWeights))
 		mal := mNone
-		if r.Chance(22) {
+		if r.Chance(20) {
 			mal = 1 + r.Intn(nMal-1)
-		}
-		if k == kCosmosSend {
-			mal = mNone
-		}
-		if mal == mReplay && len(w.accepted) == 0 {
-			mal = mStaleNonce
+			if mal == mReplay {
+				mal = mFutureNonce // replays are generated above
+			}
 		}
 		sender := w.wallets[r.Intn(len(w.wallets))]
 		if mal == mContractSender {
@@ -292,17 +631,42 @@ func (w *world) genBlock(r *Rng, n int) []*genTx {
 			sender = w.poor
 		}
 		from := sender.GetEthAddress()
-		g := &genTx{Kind: kindNames[k], Mal: malNames[mal], Sender: w.id(from), senderK: sender, from: from}
+		g := &genTx{Kind: kindNames[k], kind: k, Mal: malNames[mal], Sender: w.id(from), from: from, From: from.Hex()}
 
 		if k == kCosmosSend {
+			g.Mal = malNames[mNone]
 			to := w.wallets[r.Intn(len(w.wallets))]
-			msg := banktypes.NewMsgSend(sdk.AccAddress(from.Bytes()), sdk.AccAddress(to.GetEthAddress().Bytes()), sdk.NewCoins(sdk.NewCoin("utwo", sdkmath.NewInt(int64(1+r.Intn(1000))))))
-			// the Cosmos signature needs the sequence the account will have when the tx runs
+			amt := int64(1 + r.Intn(1000))
 			seq := w.localNonce(pending, from)
-			bz, err := w.cosmosTx(sender, seq, 200000, new(big.Int).Mul(floor, big.NewInt(2)), msg)
+			useSeq := seq
+			switch r.Intn(12) {
+			case 0: // the message fails (more than the account owns): fee charged, sequence consumed
+				g.Kind = "cosmos-send-failing"
+				amt = -1
+			case 1:
+				if seq > 0 {
+					g.Kind, g.Mal = "cosmos-send", "stale-nonce"
+					useSeq = seq - 1
+				}
+			case 2:
+				g.Kind, g.Mal = "cosmos-send", "future-nonce"
+				useSeq = seq + 1
+			}
+			coin := sdk.NewCoin("utwo", sdkmath.NewInt(1))
+			if amt > 0 {
+				coin = sdk.NewCoin("utwo", sdkmath.NewInt(amt))
+			} else {
+				coin = sdk.NewCoin("utwo", c.App.BankKeeper.GetBalance(ctx, sdk.AccAddress(from.Bytes()), "utwo").Amount.AddRaw(1))
+			}
+			msg := banktypes.NewMsgSend(sdk.AccAddress(from.Bytes()), sdk.AccAddress(to.GetEthAddress().Bytes()), sdk.NewCoins(coin))
+			bz, err := w.cosmosTx(sender, useSeq, 200000, new(big.Int).Mul(floor, big.NewInt(2)), msg)
 			require.NoError(w.t, err)
-			pending[from] = seq + 1
-			g.raw, g.isEth = bz, false
+			if useSeq == seq {
+				pending[from] = seq + 1
+			}
+			g.raw, g.isEth, g.cosmosSeq, g.Nonce = bz, false, useSeq, useSeq
+			g.Raw = hex.EncodeToString(bz)
+			g.addrs = []common.Address{from, to.GetEthAddress()}
 			out = append(out, g)
 			continue
 		}
@@ -352,25 +716,35 @@ func (w *world) genBlock(r *Rng, n int) []*genTx {
 		var to *common.Address
 		var data []byte
 		value := big.NewInt(0)
-		switch r.Intn(5) {
-		case 0:
+		senderBal := c.EvmBal(ctx, from)
+		switch r.Intn(8) {
+		case 0, 1:
 			value = big.NewInt(int64(1 + r.Intn(1000)))
-		case 1:
-			value = new(big.Int).Add(pow10(15), r.BigBits(40))
 		case 2:
-			if r.Chance(30) { // more than the sender owns
-				value = new(big.Int).Add(c.EvmBal(ctx, from), big.NewInt(1))
+			value = new(big.Int).Add(pow10(15), r.BigBits(40))
+		case 3:
+			switch r.Intn(3) { // the sender cannot afford the value: core error after admission
+			case 0:
+				value = new(big.Int).Add(senderBal, big.NewInt(1))
+			case 1:
+				value = new(big.Int).Set(senderBal) // the whole balance: unaffordable once the fee is taken
 			}
 		}
 		gasExec := uint64(0) // rough execution gas above intrinsic
+		ample := false       // the reference needs the execution to run to completion or to fail at top level
 		switch k {
 		case kTransfer:
 			var a common.Address
-			if r.Chance(50) {
+			switch r.Intn(6) {
+			case 0, 1, 2:
 				a = w.wallets[r.Intn(len(w.wallets))].GetEthAddress()
-			} else {
-				a = common.BigToAddress(new(big.Int).Add(big.NewInt(0x100000), r.BigBits(20))) // fresh
-				w.id(a)
+			case 3:
+				a = w.freshAddr(r)
+			case 4: // the address a later creation of some wallet will use
+				x := w.wallets[r.Intn(len(w.wallets))].GetEthAddress()
+				a = crypto.CreateAddress(x, w.localNonce(pending, x)+uint64(r.Intn(2)))
+			default:
+				a = c2Address(w.factory, uint64(r.Intn(nSalts)))
 			}
 			to = &a
 		case kSink:
@@ -401,40 +775,73 @@ func (w *world) genBlock(r *Rng, n int) []*genTx {
 			gasExec = 1000 + uint64(ns)*23000
 			value = big.NewInt(0)
 		case kSuicide:
-			if nSui >= len(w.suicides) {
-				k = kSink
-				g.Kind = kindNames[k]
-				to = &w.sink
-			} else {
-				a := w.suicides[nSui]
-				nSui++
-				to = &a
+			a := w.pickK(r)
+			to = &a
+			b, self := w.pickBenef(r, a, from)
+			if self {
+				b = from
 			}
-			gasExec = 8000
+			data = word(b)
+			gasExec = 60000
+			ample = true
+		case kFundK:
+			a := w.pickK(r)
+			to = &a
+			gasExec = 3000
 		case kCreateOK:
 			data = deployer(rtSink)
 			gasExec = 40000
 		case kCreateFail:
 			data = []byte{0xfe}
 			gasExec = 40000
+		case kDeployK:
+			data = initK()
+			gasExec = 60000
+		case kFactory:
+			to = &w.factory
+			data = common.LeftPadBytes([]byte{byte(r.Intn(nSalts))}, 32)
+			gasExec = 120000
+			ample = true
+		case kScript:
+			unit := []*big.Int{big.NewInt(1), big.NewInt(1000), pow10(12)}[r.Intn(3)]
+			budget := 9
+			g.scr = w.genScript(r, 0, from, unit, &budget)
+			g.Script = g.scr.String()
+			data = g.scr.compile(w.factory)
+			if value.Cmp(senderBal) < 0 || r.Chance(60) {
+				value = new(big.Int).Mul(unit, big.NewInt(int64(r.Intn(40))))
+			}
+			gasExec = 150000 + 230000*uint64(g.scr.size())
+			ample = true
 		}
 		intr, err := core.IntrinsicGas(data, nil, to == nil, true, true)
 		require.NoError(w.t, err)
 		var gas uint64
-		switch r.Intn(8) {
-		case 0:
-			gas = intr - 1 // admitted by the deliver-mode ante, core error
-			if gas < 20999 {
-				gas = 20999
+		if ample {
+			switch r.Intn(8) {
+			case 0:
+				gas = intr + uint64(r.Intn(200)) // fails in the top frame
+			case 1:
+				gas = intr + gasExec + 1_000_000
+			default:
+				gas = intr + gasExec + uint64(r.Intn(50000))
 			}
-		case 1:
-			gas = intr
-		case 2:
-			gas = intr + gasExec/2
-		case 3:
-			gas = 3_000_000
-		default:
-			gas = intr + gasExec + uint64(r.Intn(50000))
+		} else {
+			switch r.Intn(8) {
+			case 0:
+				gas = intr - 1 // admitted by the deliver-mode ante, core error
+				if gas < 20999 {
+					gas = 20999
+				}
+			case 1:
+				gas = intr
+			case 2:
+				gas = intr + gasExec/2
+			case 3:
+				gas = 3_000_000
+			default:
+				gas = intr + gasExec + uint64(r.Intn(50000))
+			}
 		}
 		nonce := w.localNonce(pending, from)
 		switch mal {
@@ -481,7 +888,7 @@ func (w *world) genBlock(r *Rng, n int) []*genTx {
 		msg := &evmtypes.MsgEthereumTx{}
 		require.NoError(w.t, msg.FromEthereumTx(ethTx, from))
 		if mal == mTamperedSig {
-			// flip a bit in the payload after signing: change the value by 1 keeping V,R,S
+			// change the payload after signing: the value by 1, keeping V,R,S
 			signed := msg.AsTransaction()
 			v, rr, ss := signed.RawSignatureValues()
 			nv := new(big.Int).Add(value, big.NewInt(1))
@@ -494,97 +901,29 @@ func (w *world) genBlock(r *Rng, n int) []*genTx {
 			default:
 				td = &ethtypes.LegacyTx{Nonce: nonce, GasPrice: price, Gas: gas, To: to, Value: nv, Data: data, V: v, R: rr, S: ss}
 			}
-			value = nv
 			require.NoError(w.t, msg.FromEthereumTx(ethtypes.NewTx(td), from))
 		}
-		var raw []byte
-		if mal == mReplay {
-			raw = w.accepted[r.Intn(len(w.accepted))]
-			// decode the replayed tx to describe it
-			tx, err := c.S.EncodingConfig.TxConfig.TxDecoder()(raw)
-			require.NoError(w.t, err)
-			msg = tx.GetMsgs()[0].(*evmtypes.MsgEthereumTx)
-			from = common.BytesToAddress(msg.GetFrom())
-			g.from = from
-			g.Sender = w.id(from)
-		} else {
-			raw, err = c.WrapEthMsg(msg)
-			require.NoError(w.t, err)
-		}
-		final := msg.AsTransaction()
-		// facts about the encoding, established independently of the ante handler
-		rec, recErr := ethtypes.LatestSignerForChainID(w.chainID).Sender(final)
-		recS := "None"
-		if recErr == nil {
-			recS = fmt.Sprintf("(Some %s)", CqZi(w.id(rec)))
-		}
-		isDyn := final.Type() == ethtypes.DynamicFeeTxType
-		gp, tp, cp := final.GasPrice(), big.NewInt(0), big.NewInt(0)
-		if isDyn {
-			gp, tp, cp = big.NewInt(0), final.GasTipCap(), final.GasFeeCap()
-		}
-		fintr, err := core.IntrinsicGas(final.Data(), final.AccessList(), final.To() == nil, true, true)
+		raw, err := c.WrapEthMsg(msg)
 		require.NoError(w.t, err)
-		g.txd = fmt.Sprintf("(mkTx %s %s %s %s %s %s %s %s %s %s %s %s)", CqZi(w.id(from)), recS, CqBool(final.Protected()), CqBool(isDyn),
-			CqZ(gp), CqZ(tp), CqZ(cp), CqZu(final.Gas()), CqZu(final.Nonce()), CqZ(final.Value()), CqBool(final.To() == nil), CqZu(fintr))
-		g.isEth, g.raw, g.hash = true, raw, final.Hash()
-		g.Dyn, g.Gas, g.Nonce, g.Value = isDyn, final.Gas(), final.Nonce(), final.Value().String()
-		g.Price, g.Tip = gp.String(), tp.String()
-		if isDyn {
-			g.Price = cp.String()
+		w.describe(g, msg, raw, base)
+		switch mal {
+		case mWrongChainID, mUnprotected, mFromNotSigner, mTamperedSig, mContractSender:
+			g.inadm = malNames[mal]
 		}
-		g.create, g.nonce, g.value, g.limit, g.intr = final.To() == nil, final.Nonce(), final.Value(), final.Gas(), fintr
-		if isDyn {
-			e := new(big.Int).Add(tp, base)
-			if e.Cmp(cp) > 0 {
-				e = cp
+		if mal == mNone {
+			// optimistic local nonce tracking (only exact for admitted txs; rejected ones do not advance)
+			cost := new(big.Int).Mul(g.price, new(big.Int).SetUint64(g.limit))
+			if spent[from] == nil {
+				spent[from] = big.NewInt(0)
 			}
-			g.price = e
-		} else {
-			g.price = gp
-		}
-		// scenario moves on success
-		v := final.Value()
-		neg := new(big.Int).Neg(v)
-		switch {
-		case final.To() == nil:
-			na := crypto.CreateAddress(from, final.Nonce())
-			g.moves = [][2]string{{CqZi(w.id(from)), CqZ(neg)}, {CqZi(w.id(na)), CqZ(v)}}
-			g.burnOK = big.NewInt(0)
-		case isSuicide(w, *final.To()):
-			cb := c.EvmBal(ctx, *final.To())
-			tot := new(big.Int).Add(cb, v)
-			g.moves = [][2]string{{CqZi(w.id(from)), CqZ(neg)}, {CqZi(w.id(*final.To())), CqZ(new(big.Int).Neg(cb))}}
-			g.burnOK = tot
-		default:
-			g.moves = [][2]string{{CqZi(w.id(from)), CqZ(neg)}, {CqZi(w.id(*final.To())), CqZ(v)}}
-			g.burnOK = big.NewInt(0)
-		}
-		if mal == mNone || mal == mLowPrice || mal == mPoor || mal == mFutureNonce || mal == mStaleNonce {
-			// optimistic local nonce tracking (only exact for admitted txs; rejected ones do not advance):
-			if mal == mNone {
-				cost := new(big.Int).Mul(g.price, new(big.Int).SetUint64(g.limit))
-				if spent[from] == nil {
-					spent[from] = big.NewInt(0)
-				}
-				if new(big.Int).Add(spent[from], cost).Cmp(c.EvmBal(ctx, from)) <= 0 {
-					spent[from].Add(spent[from], cost)
-					pending[from] = nonce + 1
-				}
+			if new(big.Int).Add(spent[from], cost).Cmp(senderBal) <= 0 {
+				spent[from].Add(spent[from], cost)
+				pending[from] = nonce + 1
 			}
 		}
 		out = append(out, g)
 	}
 	return out
-}
-
-func isSuicide(w *world, a common.Address) bool {
-	for _, s := range w.suicides {
-		if s == a {
-			return true
-		}
-	}
-	return false
 }
 
 func indexOf(ws []*itutiltypes.TestAccount, a *itutiltypes.TestAccount) int {
@@ -618,16 +957,62 @@ func (w *world) cosmosTx(acct *itutiltypes.TestAccount, seq uint64, gas uint64, 
 	return w.c.S.EncodingConfig.TxConfig.TxEncoder()(tx)
 }
 
+// ---------------------------------------------------------------- the reference effect of a committed successful execution
+
+func (w *world) applyRef(st *refState, g *genTx) (consistent bool) {
+	consistent = true
+	switch {
+	case g.create:
+		frame := crypto.CreateAddress(g.from, g.nonce)
+		st.nonce[frame] = 1
+		if !st.transfer(g.from, frame, g.value) {
+			consistent = false
+		}
+		switch {
+		case g.scr != nil:
+			if st.run(frame, g.scr) {
+				consistent = false // a reverting top frame is a VM error, not a success
+			}
+		case g.kind == kDeployK:
+			st.isK[frame] = true
+		}
+	case *g.to == w.factory && len(g.data) == 32:
+		ka := c2Address(w.factory, new(big.Int).SetBytes(g.data).Uint64())
+		if st.isK[ka] || !st.transfer(g.from, w.factory, g.value) {
+			consistent = false // collision: the factory reverts (VM error)
+		} else {
+			st.transfer(w.factory, ka, g.value)
+			st.isK[ka] = true
+		}
+	default:
+		if st.get(g.from).Cmp(g.value) < 0 {
+			consistent = false
+		}
+		b := common.Address{}
+		if len(g.data) >= 32 {
+			b = common.BytesToAddress(g.data[12:32])
+		}
+		st.callK(g.from, *g.to, g.value, len(g.data) > 0, b)
+	}
+	st.finishTx()
+	return
+}
+
 // ---------------------------------------------------------------- observation
 
-func (w *world) observe(res *abci.ExecTxResult, g *genTx) *obsTx {
+func (w *world) observe(res *abci.ExecTxResult) *obsTx {
 	o := &obsTx{Code: res.Code, GW: res.GasWanted, GU: res.GasUsed, TxIdx: -1, RGas: -1, Cum: -1, LogIdx: -1, Status: -1,
-		delta: map[string]*big.Int{}, minted: big.NewInt(0), burned: big.NewInt(0)}
+		delta: map[common.Address]*big.Int{}, minted: big.NewInt(0), burned: big.NewInt(0)}
 	add := func(who string, amt *big.Int) {
-		if o.delta[who] == nil {
-			o.delta[who] = big.NewInt(0)
+		acc, err := sdk.AccAddressFromBech32(who)
+		if err != nil || amt.Sign() == 0 {
+			return
 		}
-		o.delta[who].Add(o.delta[who], amt)
+		a := common.BytesToAddress(acc.Bytes())
+		if o.delta[a] == nil {
+			o.delta[a] = big.NewInt(0)
+		}
+		o.delta[a].Add(o.delta[a], amt)
 	}
 	denom := w.c.Denom()
 	amountOf := func(s string) *big.Int {
@@ -660,6 +1045,7 @@ func (w *world) observe(res *abci.ExecTxResult, g *genTx) *obsTx {
 			}
 			o.CA = at[evmtypes.AttributeKeyReceiptContractAddress]
 			o.HasCA = o.CA != ""
+			o.EffPrice = at[evmtypes.AttributeKeyReceiptEffectiveGasPrice]
 		case banktypes.EventTypeCoinSpent:
 			add(at[banktypes.AttributeKeySpender], new(big.Int).Neg(amountOf(at[sdk.AttributeKeyAmount])))
 		case banktypes.EventTypeCoinReceived:
@@ -668,6 +1054,11 @@ func (w *world) observe(res *abci.ExecTxResult, g *genTx) *obsTx {
 			o.minted.Add(o.minted, amountOf(at[sdk.AttributeKeyAmount]))
 		case banktypes.EventTypeCoinBurn:
 			o.burned.Add(o.burned, amountOf(at[sdk.AttributeKeyAmount]))
+		}
+	}
+	for a, d := range o.delta {
+		if d.Sign() == 0 {
+			delete(o.delta, a)
 		}
 	}
 	switch {
@@ -710,39 +1101,84 @@ func (o *obsTx) coq(codespace string) string {
 	return fmt.Sprintf("(mkObs %s %s %s %s %s %s %s %s)", out, CqZi(o.GW), CqZi(o.GU), CqZi(o.TxIdx), CqZi(o.RGas), CqZi(o.Cum), CqZi(o.LogIdx), CqZi(o.Status))
 }
 
-type snap struct {
-	bal, seq     []string
-	exists, code []string
-	supply       *big.Int
-	base         *big.Int
-	gminDec      *big.Int
+// bloom bit positions (0..2047) of one log: three per item (address, each topic), from keccak256 of the item
+func logBits(l *ethtypes.Log) []int64 {
+	var out []int64
+	item := func(b []byte) {
+		h := crypto.Keccak256(b)
+		for i := 0; i < 6; i += 2 {
+			out = append(out, int64((uint(h[i])<<8|uint(h[i+1]))&2047))
+		}
+	}
+	item(l.Address.Bytes())
+	for _, t := range l.Topics {
+		item(t.Bytes())
+	}
+	return out
 }
 
-func (w *world) snapshot(ctx sdk.Context, eoaOnly bool) *snap {
-	s := &snap{supply: w.c.Supply(ctx, w.c.Denom()), base: w.c.BaseFee(ctx)}
+// set bits of a 2048-bit bloom, ascending (bit b lives in byte 255-b/8, mask 1<<(b%8))
+func bloomBits(b ethtypes.Bloom) []int64 {
+	var out []int64
+	for bit := 0; bit < 2048; bit++ {
+		if b[ethtypes.BloomByteLength-1-bit/8]&(1<<uint(bit%8)) != 0 {
+			out = append(out, int64(bit))
+		}
+	}
+	return out
+}
+
+func cqZs(xs []int64) string {
+	ss := make([]string, len(xs))
+	for i, x := range xs {
+		ss[i] = CqZi(x)
+	}
+	return CqList(ss)
+}
+
+type snap struct {
+	addrs   []common.Address
+	bal     map[common.Address]*big.Int
+	seq     map[common.Address]uint64
+	exists  map[common.Address]bool
+	code    map[common.Address]common.Hash
+	supply  *big.Int
+	base    *big.Int
+	gminDec *big.Int
+}
+
+func (w *world) snapshot(ctx sdk.Context, addrs []common.Address) *snap {
+	s := &snap{addrs: addrs, supply: w.c.Supply(ctx, w.c.Denom()), base: w.c.BaseFee(ctx), bal: map[common.Address]*big.Int{}, seq: map[common.Address]uint64{},
+		exists: map[common.Address]bool{}, code: map[common.Address]common.Hash{}}
 	s.gminDec = w.c.App.FeeMarketKeeper.GetParams(ctx).MinGasPrice.BigInt()
-	for i, a := range w.addrs {
-		id := CqZi(int64(i))
-		if a == feeCollector() {
-			id = "FEE_COLLECTOR"
-		}
-		s.bal = append(s.bal, fmt.Sprintf("(%s, %s)", id, CqZ(w.c.EvmBal(ctx, a))))
-		if w.eoa[a] || !eoaOnly { // sequences of contracts follow EIP-161/selfdestruct rules of the interpreter: not modelled
-			s.seq = append(s.seq, fmt.Sprintf("(%s, %s)", id, CqZu(w.c.Nonce(ctx, a))))
-		}
-		acc := w.c.App.AccountKeeper.GetAccount(ctx, sdk.AccAddress(a.Bytes()))
-		if acc != nil {
-			s.exists = append(s.exists, id)
-		}
-		if !evmtypes.IsEmptyCodeHash(w.c.App.EvmKeeper.GetCodeHash(ctx, a.Bytes())) {
-			s.code = append(s.code, id)
+	for _, a := range addrs {
+		s.bal[a] = w.c.EvmBal(ctx, a)
+		s.seq[a] = w.c.Nonce(ctx, a)
+		s.exists[a] = w.c.App.AccountKeeper.GetAccount(ctx, sdk.AccAddress(a.Bytes())) != nil
+		ch := w.c.App.EvmKeeper.GetCodeHash(ctx, a.Bytes())
+		if !evmtypes.IsEmptyCodeHash(ch) {
+			s.code[a] = common.BytesToHash(ch.Bytes())
 		}
 	}
 	return s
 }
 
-func (s *snap) coq() string {
-	return fmt.Sprintf("(mkSnap %s %s %s %s %s %s %s)", CqList(s.bal), CqList(s.seq), CqList(s.exists), CqList(s.code), CqZ(s.supply), CqZ(s.base), CqZ(s.gminDec))
+func (w *world) snapCoq(s *snap, eoaOnly bool) string {
+	var bal, seq, exists, code []string
+	for _, a := range s.addrs {
+		id := w.cqID(a)
+		bal = append(bal, fmt.Sprintf("(%s, %s)", id, CqZ(s.bal[a])))
+		if w.eoa[a] || !eoaOnly { // sequences of contracts follow the interpreter's CREATE / EIP-161 / selfdestruct rules: not modelled
+			seq = append(seq, fmt.Sprintf("(%s, %s)", id, CqZu(s.seq[a])))
+		}
+		if s.exists[a] {
+			exists = append(exists, id)
+		}
+		if _, ok := s.code[a]; ok {
+			code = append(code, id)
+		}
+	}
+	return fmt.Sprintf("(mkSnap %s %s %s %s %s %s %s)", CqList(bal), CqList(seq), CqList(exists), CqList(code), CqZ(s.supply), CqZ(s.base), CqZ(s.gminDec))
 }
 
 // ---------------------------------------------------------------- the driver
@@ -754,34 +1190,49 @@ type blockDesc struct {
 	Obs    []string `json:"observed_classes"`
 }
 
+func rawKey(raw []byte) string {
+	h := sha256.Sum256(raw)
+	return string(h[:])
+}
+
 func TestDriverBlocks(t *testing.T) {
 	dir := OutDir(t)
 	seed := EnvSeed()
 	nBlocks := EnvInt("VERIF_N", 120)
 	rng := NewRng(seed)
 	side := NewSidecar("blocks", seed,
-		"case = one block of 0-10 generated transactions (11 kinds x fee variants x gas limits x values x 10 malformations, consensus max_gas varied) executed by FinalizeBlock/Commit on the real app, "+
-			"with the committed pre/post state of the address universe; non-trivial = block with >= 2 Ethereum txs that passed the ante handler and >= 2 distinct outcome classes; distinct by (kinds, malformations, classes, gas limits)")
-	cases := NewCases(dir, "From Evm Require Import TxPipe CorrTxPipe.", "tp_mismatches")
+		"case = one block of 0-10 generated transactions (15 kinds incl. destruction scripts x fee variants x gas limits x values x 10 malformations + replays of admitted bytes, consensus max_gas varied) executed by FinalizeBlock/Commit on the real app, "+
+			"with the committed pre/post state of the block's address universe; non-trivial = block with >= 2 Ethereum txs that passed the ante handler and >= 2 distinct outcome classes; distinct by (kinds, malformations, classes, gas limits)")
+	cases := NewCases(dir, "From Evm Require Import TxPipe TxPipeExt CorrTxPipe.", "tp_mismatches")
 	w := newWorld(t)
 	c := w.c
 	fc := feeCollector()
-	fcBech := sdk.AccAddress(fc.Bytes()).String()
 
 	for b := 0; b < nBlocks; b++ {
 		r := rng.Fork(uint64(b))
-		if len(w.suicides) < 2 {
-			w.setMaxGas(-1)
-			w.ensureSuicides(2)
+		{
+			alive := 0
+			for _, a := range w.ks {
+				if w.kAlive[a] {
+					alive++
+				}
+			}
+			if alive < 3 {
+				w.setMaxGas(-1)
+				w.deployKs(4)
+				side.Count("setup:deploy-K-block")
+			}
 		}
 		// consensus max_gas for this block: mostly unlimited, sometimes tight
-		switch r.Intn(6) {
+		switch r.Intn(8) {
 		case 0:
 			w.setMaxGas(int64(60_000 + r.Intn(400_000)))
 		case 1:
 			w.setMaxGas(int64(21_000 + r.Intn(60_000)))
 		case 2:
 			w.setMaxGas(40_000_000)
+		case 3:
+			w.setMaxGas(int64(1_000_000 + r.Intn(4_000_000)))
 		default:
 			w.setMaxGas(-1)
 		}
@@ -800,9 +1251,38 @@ func TestDriverBlocks(t *testing.T) {
 			require.NoError(t, c.App.FeeMarketKeeper.SetParams(ctx, p))
 		}
 		nTx := r.Intn(11)
-		// the set-up above ran blocks: state to start from is whatever is committed now
 		gen := w.genBlock(r, nTx)
-		pre := w.snapshot(c.QueryCtx(), false)
+
+		// the block's address universe
+		var uni []common.Address
+		{
+			seen := map[common.Address]bool{}
+			addU := func(a common.Address) {
+				if !seen[a] {
+					seen[a] = true
+					uni = append(uni, a)
+					w.id(a)
+				}
+			}
+			for _, a := range w.core {
+				addU(a)
+			}
+			for _, a := range w.ks {
+				addU(a)
+			}
+			for _, g := range gen {
+				for _, a := range g.addrs {
+					addU(a)
+				}
+			}
+		}
+		prectx := c.QueryCtx()
+		pre := w.snapshot(prectx, uni)
+		// storage of the store contract (slots 1..6) for the refund oracle
+		var slots [7]bool
+		for k := 1; k <= 6; k++ {
+			slots[k] = c.App.EvmKeeper.GetState(prectx, w.store, common.BigToHash(big.NewInt(int64(k)))) != (common.Hash{})
+		}
 		var raws [][]byte
 		for _, g := range gen {
 			raws = append(raws, g.raw)
@@ -810,34 +1290,78 @@ func TestDriverBlocks(t *testing.T) {
 		height := c.Height
 		res := c.RunBlock(raws)
 		require.Equal(t, len(raws), len(res.TxResults))
-		post := w.snapshot(c.QueryCtx(), true)
+		postctx := c.QueryCtx()
+		post := w.snapshot(postctx, uni)
+
+		// ---- reference state of the block: balances, which accounts carry rtK, expected sequences
+		st := newRefState(w.factory)
+		for _, a := range uni {
+			st.bal[a] = pre.bal[a]
+			if pre.code[a] == w.kHash {
+				st.isK[a] = true
+			}
+		}
+		st.bal[fc] = big.NewInt(0) // x/distribution sweeps the fee collector at BeginBlock
+		expSeq := map[common.Address]uint64{}
+		for _, a := range uni {
+			expSeq[a] = pre.seq[a]
+		}
+		burnTotal := big.NewInt(0)
 
 		// ---- observations
 		var items []string
 		var obsStr []string
 		classes := map[string]bool{}
 		passedAnte := 0
-		var blockLogs, blockReceipts int
 		blockBloom := ethtypes.Bloom{}
 		cumExpected := int64(0)
 		logExpected := int64(0)
 		idxExpected := int64(0)
+		inBlock := map[string]bool{} // raw bytes admitted earlier in this block
 		for i, g := range gen {
 			tr := res.TxResults[i]
+			o := w.observe(tr)
+			key := rawKey(g.raw)
+			desc := map[string]interface{}{"height": height, "pos": i, "tx": g, "class": o.Class, "code": tr.Code, "codespace": tr.Codespace, "gas_wanted": o.GW, "gas_used": o.GU, "log": trunc(tr.Log, 200), "max_gas": w.maxGas}
 			if !g.isEth {
 				// the SDK lane is observed, not modelled: fee actually charged (bank events) and whether the sequence advanced
-				co := w.observe(tr, g)
 				paid := big.NewInt(0)
-				if d := co.delta[fcBech]; d != nil {
+				if d := o.delta[fc]; d != nil {
 					paid = d
 				}
 				inc := paid.Sign() > 0 || tr.Code == 0
 				items = append(items, fmt.Sprintf("ICosmos %s %s %s %s", CqZi(cosmosBlockGas(tr)), CqZi(w.id(g.from)), CqZ(paid), CqBool(inc)))
 				side.Count("class:cosmos:" + fmt.Sprint(tr.Code == 0))
+				if tr.Code != 0 {
+					side.Count(fmt.Sprintf("cosmos-rej:%s/%d", tr.Codespace, tr.Code))
+				}
+				side.Count("kind:" + g.Kind)
+				if g.Mal != "none" {
+					side.Count("mal:cosmos:" + g.Mal)
+				}
 				obsStr = append(obsStr, "COSMOS")
+				// C06 for the Cosmos lane: accepted only with the account's current sequence, never twice
+				if inc {
+					if _, again := w.admitted[key]; again || inBlock[key] {
+						side.Hit("C06/blocks/replay-accepted", "the same signed Cosmos transaction bytes were accepted a second time", desc)
+					}
+					if g.cosmosSeq != expSeq[g.from] {
+						side.Hit("C06/blocks/inadmissible-tx-changed-state/cosmos-wrong-sequence", fmt.Sprintf("signed for sequence %d, account sequence %d", g.cosmosSeq, expSeq[g.from]), desc)
+					}
+					inBlock[key] = true
+					expSeq[g.from]++
+					st.add(g.from, new(big.Int).Neg(paid))
+					st.add(fc, paid)
+					cp := *g
+					w.cosmosAcc = append(w.cosmosAcc, &cp)
+					if len(w.cosmosAcc) > 16 {
+						w.cosmosAcc = w.cosmosAcc[1:]
+					}
+				} else if len(o.delta) != 0 {
+					side.Hit("C06/blocks/inadmissible-tx-changed-state/cosmos-rejected", "a rejected Cosmos transaction has bank events", desc)
+				}
 				continue
 			}
-			o := w.observe(tr, g)
 			obsStr = append(obsStr, o.Class)
 			classes[o.Class] = true
 			side.Count("class:" + o.Class)
@@ -854,100 +1378,241 @@ func TestDriverBlocks(t *testing.T) {
 			if o.Class != "EXEC_OK" && o.Class != "EXEC_VMERR" && o.Class != "FAILED" {
 				used = 0
 			}
-			mv := make([]string, 0, len(g.moves))
-			for _, m := range g.moves {
-				mv = append(mv, fmt.Sprintf("(%s, %s)", m[0], m[1]))
-			}
-			// commit error is visible as a FAILED tx whose log mentions the commit: class only, by code 'evm' codespace? keep false
-			eo := fmt.Sprintf("(mkOut %s %s %s %s %s false)", CqZi(used), CqBool(vmerr), CqZi(o.NLogs), CqList(mv), CqZ(g.burnOK))
-			items = append(items, fmt.Sprintf("IEth %s %s %s", g.txd, eo, o.coq(tr.Codespace)))
-
-			// ---------------- direct oracle (property texts), independent of the model
-			desc := map[string]interface{}{"height": height, "pos": i, "tx": g, "class": o.Class, "code": tr.Code, "codespace": tr.Codespace, "gas_wanted": o.GW, "gas_used": o.GU, "log": trunc(tr.Log, 200)}
-			senderBech := sdk.AccAddress(g.from.Bytes()).String()
-			sd := o.delta[senderBech]
-			if sd == nil {
-				sd = big.NewInt(0)
-			}
 			net := new(big.Int).Sub(o.minted, o.burned)
+			limitFee := new(big.Int).Mul(g.price, new(big.Int).SetUint64(g.limit))
+
+			// ---------------- C06: admission (independent of the model)
+			admittedNow := o.ethTxEvent || len(o.delta) != 0 || (o.Class != "REJ" && o.Class != "DROPPED")
+			reason := g.inadm
+			if reason == "" && g.nonce != expSeq[g.from] {
+				reason = "stale-nonce"
+				if g.nonce > expSeq[g.from] {
+					reason = "future-nonce"
+				}
+			}
+			_, seenBefore := w.admitted[key]
+			replayed := seenBefore || inBlock[key]
+			if admittedNow {
+				if replayed {
+					side.Hit("C06/blocks/replay-accepted", fmt.Sprintf("the same signed transaction bytes passed admission a second time (class %s)", o.Class), desc)
+				}
+				if reason != "" {
+					side.Hit("C06/blocks/inadmissible-tx-changed-state/"+reason, fmt.Sprintf("nonce %d, account sequence %d, class %s: the transaction passed admission / changed state", g.nonce, expSeq[g.from], o.Class), desc)
+				}
+				if g.inadm != "" {
+					side.Hit("C06/blocks/unauthorised-tx-admitted", "malformation "+g.inadm+" passed the ante handler", desc)
+				}
+				inBlock[key] = true
+				expSeq[g.from]++
+			}
+
+			// ---------------- reference effect and expected bank flows of this tx
+			var moves [][2]string
+			burn := big.NewInt(0)
+			expDelta := map[common.Address]*big.Int{}
+			addExp := func(a common.Address, d *big.Int) {
+				if expDelta[a] == nil {
+					expDelta[a] = big.NewInt(0)
+				}
+				expDelta[a].Add(expDelta[a], d)
+			}
 			switch o.Class {
 			case "EXEC_OK", "EXEC_VMERR":
-				if o.ethTxEvent {
-					// C04: supply change of this tx = -(destroyed), never positive
-					wantBurn := big.NewInt(0)
-					moved := big.NewInt(0)
-					if !vmerr {
-						wantBurn = g.burnOK
-						moved = g.value
+				fee := new(big.Int).Mul(g.price, big.NewInt(o.RGas))
+				st.add(g.from, new(big.Int).Neg(limitFee)) // the execution sees the sender after the ante deduction
+				if !vmerr {
+					before := st.bal
+					st.bal = make(map[common.Address]*big.Int, len(before))
+					for k, v := range before {
+						st.bal[k] = v
 					}
-					if net.Sign() > 0 {
-						side.Hit("C04/blocks/tx-increases-supply", fmt.Sprintf("bank events of the tx: minted %s > burned %s", o.minted, o.burned), desc)
-					} else if new(big.Int).Neg(net).Cmp(wantBurn) != 0 {
-						side.Hit("C04/blocks/supply-delta-not-equal-destroyed", fmt.Sprintf("net burn %s, explicitly destroyed %s", new(big.Int).Neg(net), wantBurn), desc)
+					b0 := st.burn
+					if !w.applyRef(st, g) {
+						side.Count("ref:inconsistent-with-success")
 					}
-					// C04/C05: fee collector gains exactly gas used x effective price; sender pays that plus value moved
-					fee := new(big.Int).Mul(g.price, big.NewInt(o.RGas))
-					fd := o.delta[fcBech]
-					if fd == nil {
-						fd = big.NewInt(0)
+					burn = new(big.Int).Sub(st.burn, b0)
+					var ch []common.Address
+					for a, v := range st.bal {
+						if v.Cmp(zeroIfNil(before[a])) != 0 {
+							ch = append(ch, a)
+						}
 					}
-					if fd.Cmp(fee) != 0 {
-						side.Hit("C04/blocks/fee-collector-gain-not-fee", fmt.Sprintf("fee collector %s, gasUsed x price %s", fd, fee), desc)
+					sort.Slice(ch, func(i, j int) bool { return w.id(ch[i]) < w.id(ch[j]) })
+					for _, a := range ch {
+						d := new(big.Int).Sub(st.bal[a], zeroIfNil(before[a]))
+						moves = append(moves, [2]string{w.cqID(a), CqZ(d)})
+						addExp(a, d)
 					}
-					wantSender := new(big.Int).Neg(new(big.Int).Add(fee, moved))
-					if g.from == *orAddr(toOf(g, w)) && !vmerr { // self transfer: value returns
-						wantSender = new(big.Int).Neg(fee)
+				}
+				st.add(g.from, new(big.Int).Sub(limitFee, fee))
+				st.add(fc, fee)
+				addExp(g.from, new(big.Int).Neg(fee))
+				addExp(fc, fee)
+				burnTotal.Add(burnTotal, burn)
+			case "FAILED":
+				st.add(g.from, new(big.Int).Neg(limitFee))
+				st.add(fc, limitFee)
+				addExp(g.from, new(big.Int).Neg(limitFee))
+				addExp(fc, limitFee)
+			}
+			mv := make([]string, 0, len(moves))
+			for _, m := range moves {
+				mv = append(mv, fmt.Sprintf("(%s, %s)", m[0], m[1]))
+			}
+			eo := fmt.Sprintf("(mkOut %s %s %s %s %s false)", CqZi(used), CqBool(vmerr), CqZi(o.NLogs), CqList(mv), CqZ(burn))
+			// receipt extension: CREATE address of (sender, nonce), bloom bit positions of each log; observed address and bloom
+			var lb []string
+			for _, l := range o.LogsRlp {
+				lb = append(lb, cqZs(logBits(l)))
+			}
+			obCA := "None"
+			if o.HasCA {
+				obCA = fmt.Sprintf("(Some %s)", CqZi(w.id(common.HexToAddress(o.CA))))
+			}
+			obBloom := "[]"
+			if o.Status >= 0 {
+				obBloom = cqZs(bloomBits(o.Bloom))
+			}
+			ext := fmt.Sprintf("(mkExt %s %s %s %s)", CqZi(w.id(crypto.CreateAddress(g.from, g.nonce))), CqList(lb), obCA, obBloom)
+			items = append(items, fmt.Sprintf("IEth %s %s %s %s", g.coqT, eo, o.coq(tr.Codespace), ext))
+
+			// ---------------- direct oracle (property texts), independent of the model
+			checkFlows := func() {
+				// every account named by a bank event or expected to move: observed net flow = expected
+				all := map[common.Address]bool{}
+				for a := range expDelta {
+					all[a] = true
+				}
+				for a := range o.delta {
+					all[a] = true
+				}
+				var as []common.Address
+				for a := range all {
+					as = append(as, a)
+				}
+				sort.Slice(as, func(i, j int) bool { return as[i].Hex() < as[j].Hex() })
+				for _, a := range as {
+					want, got := zeroIfNil(expDelta[a]), zeroIfNil(o.delta[a])
+					if want.Cmp(got) == 0 {
+						continue
 					}
-					if sd.Cmp(wantSender) != 0 {
-						side.Hit("C05/blocks/sender-charge-not-exact", fmt.Sprintf("sender delta %s, want %s", sd, wantSender), desc)
+					msg := fmt.Sprintf("account %s: bank events net %s, expected %s", a.Hex(), got, want)
+					switch a {
+					case g.from:
+						if o.Class == "FAILED" {
+							side.Hit("C05/blocks/failed-tx-not-charged-full-limit", msg, desc)
+						} else {
+							side.Hit("C05/blocks/sender-charge-not-exact", msg, desc)
+						}
+					case fc:
+						side.Hit("C04/blocks/fee-collector-gain-not-fee", msg, desc)
+					case w.evmModule:
+						side.Hit("C04/blocks/evm-module-balance-nonzero", msg, desc)
+					default:
+						side.Hit("C04/blocks/balance-change-not-as-expected", msg, desc)
 					}
-					// C05: gas bounds and consensus = receipt
-					if o.RGas > int64(g.limit) || o.RGas < int64(g.intr) {
-						side.Hit("C05/blocks/gas-used-out-of-bounds", fmt.Sprintf("gas used %d, intrinsic %d, limit %d", o.RGas, g.intr, g.limit), desc)
+				}
+			}
+			switch o.Class {
+			case "EXEC_OK", "EXEC_VMERR":
+				// C04: supply change of this tx = -(destroyed), never positive
+				if net.Sign() > 0 {
+					side.Hit("C04/blocks/tx-increases-supply", fmt.Sprintf("bank events of the tx: minted %s > burned %s", o.minted, o.burned), desc)
+				} else if new(big.Int).Neg(net).Cmp(burn) != 0 {
+					side.Hit("C04/blocks/supply-delta-not-equal-destroyed", fmt.Sprintf("net burn %s, explicitly destroyed %s", new(big.Int).Neg(net), burn), desc)
+				}
+				// C04/C05: fee collector gains exactly gas used x effective price; sender pays that plus what the execution moved; nobody else moves otherwise
+				checkFlows()
+				if o.EffPrice != g.price.String() {
+					side.Hit("C05/blocks/effective-price", fmt.Sprintf("receipt event says %s, min(tip+base,cap) = %s", o.EffPrice, g.price), desc)
+				}
+				// C05: gas bounds and consensus = receipt
+				if o.RGas > int64(g.limit) || o.RGas < int64(g.intr) {
+					side.Hit("C05/blocks/gas-used-out-of-bounds", fmt.Sprintf("gas used %d, intrinsic %d, limit %d", o.RGas, g.intr, g.limit), desc)
+				}
+				if o.RGas != o.GU {
+					side.Hit("C05/blocks/consensus-gas-differs-from-receipt", fmt.Sprintf("consensus %d receipt %d", o.GU, o.RGas), desc)
+				}
+				if o.GW != int64(g.limit) {
+					side.Hit("C05/blocks/gas-wanted-not-limit", fmt.Sprintf("gas wanted %d, limit %d", o.GW, g.limit), desc)
+				}
+				// C05: storage refund <= consumed/5 (and the refund counter), on the store contract whose cost is known
+				if !vmerr && (g.kind == kStoreSet || g.kind == kStoreClear) && len(g.data) == 2 && g.to != nil && *g.to == w.store {
+					n, v := int(g.data[0]), g.data[1] != 0
+					lb, counter := int64(g.intr), int64(0)
+					for k := n; k >= 1 && k <= 6; k-- {
+						switch {
+						case slots[k] == v && !v: // 0 -> 0
+							lb += 2200
+						case slots[k] && v: // non-zero -> non-zero (the same value is a no-op at 2200, another value 5000)
+							lb += 2200
+						case !slots[k] && v:
+							lb += 22100
+						default: // clear
+							lb += 5000
+							counter += 4800
+						}
+						slots[k] = v
 					}
-					if o.RGas != o.GU {
-						side.Hit("C05/blocks/consensus-gas-differs-from-receipt", fmt.Sprintf("consensus %d receipt %d", o.GU, o.RGas), desc)
+					ub := lb + 400 + 150*int64(n) + 2800*int64(n) // loop overhead; non-zero -> other non-zero costs 2800 more than the no-op
+					f := func(consumed int64) int64 {
+						rf := consumed / 5
+						if counter < rf {
+							rf = counter
+						}
+						return consumed - rf
 					}
-					// C13
-					cumExpected += o.RGas
-					if o.Cum != cumExpected {
-						side.Hit("C13/blocks/cumulative-gas-not-running-sum", fmt.Sprintf("cumulative %d, running sum %d", o.Cum, cumExpected), desc)
+					if o.RGas < f(lb) || o.RGas > f(ub) {
+						side.Hit("C05/blocks/refund-not-capped-at-one-fifth", fmt.Sprintf("gas used %d; gas consumed within [%d,%d], refund counter %d => gas used within [%d,%d]", o.RGas, lb, ub, counter, f(lb), f(ub)), desc)
 					}
-					if o.TxIdx != idxExpected {
-						side.Hit("C13/blocks/tx-index-not-consecutive", fmt.Sprintf("txIndex %d, expected %d", o.TxIdx, idxExpected), desc)
-					}
-					if o.NLogs > 0 && o.LogIdx != logExpected {
-						side.Hit("C13/blocks/log-index-not-consecutive", fmt.Sprintf("first log index %d, expected %d", o.LogIdx, logExpected), desc)
-					}
-					logExpected += o.NLogs
-					if (o.Status == 1) == vmerr {
-						side.Hit("C13/blocks/status-vs-vmerror", "status does not reflect the VM error", desc)
-					}
-					wantCA := g.create && !vmerr
-					if o.HasCA != wantCA || (wantCA && !strings.EqualFold(o.CA, crypto.CreateAddress(g.from, g.nonce).Hex())) {
-						side.Hit("C13/blocks/contract-address", fmt.Sprintf("contract address %q, creation succeeded %v", o.CA, wantCA), desc)
-					}
-					rb := ethtypes.BytesToBloom(ethtypes.LogsBloom(o.LogsRlp))
-					if rb != o.Bloom {
-						side.Hit("C13/blocks/receipt-bloom", "receipt bloom does not cover exactly its logs", desc)
-					}
-					orBloom(&blockBloom, o.Bloom)
-					blockLogs += int(o.NLogs)
-					blockReceipts++
-					if vmerr && o.NLogs != 0 {
-						side.Hit("C03/blocks/logs-of-failed-execution", "a failed execution kept logs", desc)
-					}
+					side.Count(fmt.Sprintf("refund:counter>cap=%v", counter > lb/5))
+				}
+				// C13 (and the cumulative clause of C05)
+				cumExpected += o.RGas
+				if o.Cum != cumExpected {
+					side.Hit("C13/blocks/cumulative-gas-not-running-sum", fmt.Sprintf("cumulative %d, running sum %d", o.Cum, cumExpected), desc)
+					side.Hit("C05/blocks/cumulative-gas-not-running-sum", fmt.Sprintf("cumulative %d, running sum %d", o.Cum, cumExpected), desc)
+				}
+				if o.TxIdx != idxExpected {
+					side.Hit("C13/blocks/tx-index-not-consecutive", fmt.Sprintf("txIndex %d, expected %d", o.TxIdx, idxExpected), desc)
+				}
+				if o.NLogs > 0 && o.LogIdx != logExpected {
+					side.Hit("C13/blocks/log-index-not-consecutive", fmt.Sprintf("first log index %d, expected %d", o.LogIdx, logExpected), desc)
+				}
+				logExpected += o.NLogs
+				if (o.Status == 1) == vmerr {
+					side.Hit("C13/blocks/status-vs-vmerror", "status does not reflect the VM error", desc)
+				}
+				wantCA := g.create && !vmerr
+				if o.HasCA != wantCA || (wantCA && !strings.EqualFold(o.CA, crypto.CreateAddress(g.from, g.nonce).Hex())) {
+					side.Hit("C13/blocks/contract-address", fmt.Sprintf("contract address %q, creation succeeded %v", o.CA, wantCA), desc)
+				}
+				rb := ethtypes.BytesToBloom(ethtypes.LogsBloom(o.LogsRlp))
+				if rb != o.Bloom {
+					side.Hit("C13/blocks/receipt-bloom", "receipt bloom does not cover exactly its logs", desc)
+				}
+				orBloom(&blockBloom, o.Bloom)
+				if vmerr && o.NLogs != 0 {
+					side.Hit("C03/blocks/logs-of-failed-execution", "a failed execution kept logs", desc)
+				}
+				if g.scr != nil {
+					side.Count(fmt.Sprintf("script:%s:ops=%d", o.Class, g.scr.size()))
+				}
+				if burn.Sign() > 0 {
+					side.Count("burn:positive")
 				}
 				idxExpected++
 			case "FAILED":
 				// failed after admission: full gas limit charged, nothing else moves
-				fee := new(big.Int).Mul(g.price, new(big.Int).SetUint64(g.limit))
-				if sd.Cmp(new(big.Int).Neg(fee)) != 0 {
-					side.Hit("C05/blocks/failed-tx-not-charged-full-limit", fmt.Sprintf("sender delta %s, want %s", sd, new(big.Int).Neg(fee)), desc)
-				}
+				checkFlows()
 				if net.Sign() != 0 {
 					side.Hit("C04/blocks/failed-tx-changes-supply", fmt.Sprintf("minted %s burned %s", o.minted, o.burned), desc)
 				}
+				blockGas := tr.Codespace == "sdk" && tr.Code == 11
+				if !blockGas && o.GU != int64(g.limit) {
+					side.Hit("C05/blocks/failed-tx-gas-not-full-limit", fmt.Sprintf("consensus gas used %d, limit %d", o.GU, g.limit), desc)
+				}
+				side.Count(fmt.Sprintf("failed:block-gas=%v", blockGas))
 				cumExpected += int64(g.limit)
 				if o.TxIdx != idxExpected {
 					side.Hit("C13/blocks/tx-index-not-consecutive", fmt.Sprintf("txIndex %d, expected %d", o.TxIdx, idxExpected), desc)
@@ -960,15 +1625,24 @@ func TestDriverBlocks(t *testing.T) {
 			default:
 				side.Hit("C05/blocks/unclassified-result", "result class "+o.Class, desc)
 			}
-			// C06: authorisation of anything that passed the ante handler
 			if o.ethTxEvent {
-				if g.Mal == "wrong-chain-id" || g.Mal == "unprotected" || g.Mal == "from!=signer" || g.Mal == "tampered-sig" || g.Mal == "contract-sender" {
-					side.Hit("C06/blocks/unauthorised-tx-admitted", "malformation "+g.Mal+" passed the ante handler", desc)
-				}
-				w.accepted = append(w.accepted, g.raw)
-				if len(w.accepted) > 64 {
+				w.admitted[key] = height
+				cp := *g
+				w.accepted = append(w.accepted, &cp)
+				if len(w.accepted) > 48 {
 					w.accepted = w.accepted[1:]
 				}
+				if o.Class == "FAILED" || o.Class == "EXEC_VMERR" {
+					w.failedAcc = append(w.failedAcc, &cp)
+					if len(w.failedAcc) > 24 {
+						w.failedAcc = w.failedAcc[1:]
+					}
+				}
+				if replayed {
+					side.Count("replay:admitted")
+				}
+			} else if replayed {
+				side.Count("replay:rejected:" + map[bool]string{true: "same-block", false: "later-block"}[inBlock[key]])
 			}
 			// C09: admitted price is at least the base fee and trunc(global min)
 			if o.ethTxEvent {
@@ -978,43 +1652,143 @@ func TestDriverBlocks(t *testing.T) {
 				}
 			}
 		}
-		// C06 over the block: sequences move by exactly the number of admitted txs per sender (checked by the model on
-		// the post state); direct oracle: no sequence decreased
+
+		for k, v := range st.stats {
+			side.Histogram["reached:"+k] += v
+		}
+		// ---------------- block-level oracles
+		bdesc := func(extra map[string]interface{}) map[string]interface{} {
+			m := map[string]interface{}{"height": height, "max_gas": w.maxGas, "txs": gen, "observed_classes": obsStr}
+			for k, v := range extra {
+				m[k] = v
+			}
+			return m
+		}
+		// C06: every sequence moved by exactly the number of admitted transactions of that account; no sequence ever decreases
+		for _, a := range uni {
+			if !w.eoa[a] && !w.static[a] {
+				continue
+			}
+			if post.seq[a] != expSeq[a] {
+				var mine []map[string]interface{}
+				for i, g := range gen {
+					if g.from == a {
+						mine = append(mine, map[string]interface{}{"pos": i, "tx": g, "class": obsStr[i]})
+					}
+				}
+				sig := "C06/blocks/nonce-not-advanced-by-one"
+				if len(mine) == 0 {
+					sig = "C06/blocks/foreign-sequence-moved"
+				}
+				side.Hit(sig, fmt.Sprintf("account %s: sequence %d before the block, %d after, %d transaction(s) of it passed admission", a.Hex(), pre.seq[a], post.seq[a], expSeq[a]-pre.seq[a]),
+					bdesc(map[string]interface{}{"account": a.Hex(), "its_txs": mine}))
+			}
+			if last, ok := w.lastSeq[a]; ok && post.seq[a] < last {
+				side.Hit("C06/blocks/sequence-decreased", fmt.Sprintf("account %s: sequence %d -> %d", a.Hex(), last, post.seq[a]), bdesc(map[string]interface{}{"account": a.Hex()}))
+			}
+			if pre.seq[a] < w.lastSeq[a] {
+				side.Hit("C06/blocks/sequence-decreased", fmt.Sprintf("account %s: sequence %d -> %d between blocks", a.Hex(), w.lastSeq[a], pre.seq[a]), bdesc(map[string]interface{}{"account": a.Hex()}))
+			}
+			w.lastSeq[a] = post.seq[a]
+		}
+		// C04: supply, balances, EVM module account
+		dSupply := new(big.Int).Sub(post.supply, pre.supply)
+		if dSupply.Sign() > 0 {
+			side.Hit("C04/blocks/supply-increased", fmt.Sprintf("total supply grew by %s over the block", dSupply), bdesc(nil))
+		} else if new(big.Int).Neg(dSupply).Cmp(burnTotal) != 0 {
+			side.Hit("C04/blocks/block-supply-delta-not-minus-burns", fmt.Sprintf("supply changed by %s, explicitly destroyed %s", dSupply, burnTotal), bdesc(nil))
+		}
+		if post.bal[w.evmModule].Sign() != 0 {
+			side.Hit("C04/blocks/evm-module-balance-nonzero", fmt.Sprintf("EVM module account holds %s after the block", post.bal[w.evmModule]), bdesc(nil))
+		}
+		for _, a := range uni {
+			if post.bal[a].Cmp(st.get(a)) != 0 {
+				side.Hit("C04/blocks/post-balance-not-as-expected", fmt.Sprintf("account %s holds %s after the block, expected %s", a.Hex(), post.bal[a], st.get(a)), bdesc(map[string]interface{}{"account": a.Hex()}))
+			}
+		}
 		// block bloom (C13): union of receipt blooms, from the block_bloom event
+		obsBlockBloom := "[]"
 		for _, ev := range res.Events {
 			if ev.Type == evmtypes.EventTypeBlockBloom {
 				at := EventAttrs(ev)
 				bz, _ := hexutil.Decode(hexPrefixed(at[evmtypes.AttributeKeyEthereumBloom]))
-				if ethtypes.BytesToBloom(bz) != blockBloom {
-					side.Hit("C13/blocks/block-bloom-not-union", "block bloom differs from the union of the receipt blooms", map[string]interface{}{"height": height})
+				bb := ethtypes.BytesToBloom(bz)
+				if bb != blockBloom {
+					side.Hit("C13/blocks/block-bloom-not-union", "block bloom differs from the union of the receipt blooms", bdesc(nil))
 				}
+				obsBlockBloom = cqZs(bloomBits(bb))
 			}
 		}
-		// per-block balance truthfulness of the event-derived deltas is covered by the model comparison of the post state
 
-		{ // self-destructed instances are gone
-			var alive []common.Address
-			for _, a := range w.suicides {
-				if !evmtypes.IsEmptyCodeHash(c.App.EvmKeeper.GetCodeHash(c.QueryCtx(), a.Bytes())) {
-					alive = append(alive, a)
+		{ // K instances: keep the living ones, a few destroyed ones, add the new ones
+			var keep []common.Address
+			dead := 0
+			for _, a := range w.ks {
+				if post.code[a] == w.kHash {
+					keep = append(keep, a)
+				} else if dead < 2 {
+					dead++
+					keep = append(keep, a)
 				}
 			}
-			w.suicides = alive
+			for i, g := range gen {
+				if g.isEth && g.kind == kDeployK && obsStr[i] == "EXEC_OK" {
+					a := crypto.CreateAddress(g.from, g.nonce)
+					if post.code[a] == w.kHash && !containsAddr(keep, a) {
+						keep = append(keep, a)
+					}
+				}
+			}
+			if len(keep) > 12 {
+				keep = keep[len(keep)-12:]
+			}
+			w.ks = keep
+			w.kAlive = map[common.Address]bool{}
+			alive := 0
+			for _, a := range w.ks {
+				if post.code[a] == w.kHash {
+					alive++
+					w.kAlive[a] = true
+				}
+			}
+			for s := uint64(0); s < nSalts; s++ {
+				if a := c2Address(w.factory, s); post.code[a] == w.kHash {
+					w.kAlive[a] = true
+				}
+			}
+			side.Count(fmt.Sprintf("K-alive:%d", min(alive, 6)))
 		}
-		item := fmt.Sprintf("(mkBlock %s %s %s %s)", pre.coq(), CqZi(w.maxGas), CqList(items), post.coq())
+		item := fmt.Sprintf("(mkBlock %s %s %s %s %s)", w.snapCoq(pre, false), CqZi(w.maxGas), CqList(items), w.snapCoq(post, true), obsBlockBloom)
 		cases.Add(item)
-		sort.Strings(obsStr)
+		sorted := append([]string{}, obsStr...)
+		sort.Strings(sorted)
 		kinds := []string{}
 		for _, g := range gen {
 			kinds = append(kinds, g.Kind+"/"+g.Mal+"/"+strconv.FormatUint(g.Gas, 10))
 		}
 		bd := blockDesc{Height: height, MaxGas: w.maxGas, Txs: gen, Obs: obsStr}
-		side.Case(b, strings.Join(kinds, ",")+"|"+strings.Join(obsStr, ","), passedAnte >= 2 && len(classes) >= 2, bd)
+		side.Case(b, strings.Join(kinds, ",")+"|"+strings.Join(sorted, ","), passedAnte >= 2 && len(classes) >= 2, bd)
 		side.Count(fmt.Sprintf("block_txs:%d", len(gen)))
 		side.Count("max_gas:" + mgClass(w.maxGas))
 	}
-	cases.Write(t, 40)
+	cases.Write(t, 25)
 	side.Write(t, dir)
+}
+
+func zeroIfNil(x *big.Int) *big.Int {
+	if x == nil {
+		return big.NewInt(0)
+	}
+	return x
+}
+
+func containsAddr(l []common.Address, a common.Address) bool {
+	for _, x := range l {
+		if x == a {
+			return true
+		}
+	}
+	return false
 }
 
 func mgClass(m int64) string {
@@ -1048,22 +1822,6 @@ func orBloom(dst *ethtypes.Bloom, b ethtypes.Bloom) {
 	for i := range dst {
 		dst[i] |= b[i]
 	}
-}
-
-func toOf(g *genTx, w *world) *common.Address {
-	// recipient id is the second move's address unless creation; we only need "is it a self transfer"
-	tx, err := w.c.S.EncodingConfig.TxConfig.TxDecoder()(g.raw)
-	if err != nil {
-		return nil
-	}
-	return tx.GetMsgs()[0].(*evmtypes.MsgEthereumTx).AsTransaction().To()
-}
-
-func orAddr(a *common.Address) *common.Address {
-	if a == nil {
-		return &common.Address{0xff, 0xff, 0xff, 0xff, 0xff, 0xff, 0xff, 0xff, 0xff, 0xff, 0xff, 0xff, 0xff, 0xff, 0xff, 0xff, 0xff, 0xff, 0xfe, 0x01}
-	}
-	return a
 }
 
 // gas a Cosmos tx adds to the block gas meter: GasConsumedToLimit of its tx meter = min(used, wanted)
